@@ -228,6 +228,31 @@ def scenario(c, inst, props):
     oracle.rhs = rhs
     if "C12" in props:
         return _landing_fault(c, inst, a, rhs, oracle, events, cb, t0, tf, adt, sgn, dense, kind, infinite)
+    if inst.get("reversal"):
+        # history: the span is integrated forward WITHOUT events, then the system is sent back to its start time with events monitored
+        # (shooting back and forth): every step of the way back is examined on ITS OWN interpolant, not on a piece of the forward leg
+        st, r = run(a.integrate, callback=[cb])
+        if st != "ok":
+            return
+        with patched(ds, "handle_events", oracle):
+            st, r = run(a.integrate, t0, events=events, callback=[cb])
+        if st != "ok":
+            cause = getattr(r, "__cause__", None)
+            if not isinstance(cause, StepCap):
+                c.check("%s.integrate_with_events_returns" % min(props).lower(), False, info=repr(r) + " / " + repr(cause))
+            return
+        c.case()
+        rec = list(a.events)
+        spec = spec_events(c, oracle)
+        P = min(props).lower()
+        c.check(P + ".reversal.detector_is_handed_the_interpolant_of_the_step_under_examination",
+                all(call["piece"] is not None and call["lookup_ok"] for call in oracle.calls), info=dict(calls=[(call["piece"] is not None, call["lookup_ok"]) for call in oracle.calls]))
+        if len(rec) == len(spec):
+            c.check(P + ".reversal.event_state_is_step_interpolant_at_event_time",
+                    c.all([(_eqv(c, e.y, s_["piece"](e.t), 64) if s_["piece"] is not None else False) for e, s_ in zip(rec, spec)]))
+        c.check(P + ".reversal.every_detected_crossing_is_recorded_once", len(rec) == len(spec) and
+                c.all([c.all([c.eq(e.t, s_["root"]), e.event is s_["ev"]]) for e, s_ in zip(rec, spec)]), info=dict(rec=len(rec), spec=len(spec)))
+        return
     with patched(ds, "handle_events", oracle):
         if inst.get("two_calls"):
             # the span is covered by two integrate(events=...) calls: a crossing found at the very end of the first call is met again at
